@@ -493,14 +493,22 @@ def run_case(case):
             if sols:
                 return [V("spurious_solve_failure", "randomize", case, where + ": %d solutions exist, e.g. %s (lists before the call: %s)"
                           % (len(sols), sols[0], cjson(cur)))], info
-            # contents of random lists after a failed call are unspecified (a random-size list is left grown to its
-            # solver size with a stale size field): the history is not judged further
-            if any(l["mode"] == "randsz" for l in lists):
-                info["stopped_after_failure"] = True
-                return [], info
+            # the values of random elements after a failed call are unspecified, the list itself is not: it exposes the
+            # elements it held before the call (a random-size list is not left grown)
             for l in lists:
+                lo = lib_list(l["name"])
+                try:
+                    got = [int(x) for x in lo]
+                    ok_ = len(lo) == lo.size == len(got) == len(cur[l["name"]])
+                except Exception as e_:
+                    got, ok_ = repr(e_), False
+                if not ok_:
+                    return [V("length_disagree", "after a failed call the list does not expose the elements it held before", case,
+                              where + " raised SolveFailure: list %s held %d elements, now len=%d size=%d iterated=%s"
+                              % (l["name"], len(cur[l["name"]]), len(lo), lo.size, got))], info
                 if l["mode"] != "nonrand":
-                    cur[l["name"]] = [int(x) for x in lib_list(l["name"])]
+                    cur[l["name"]] = got
+            info["continued_after_failure"] = info.get("continued_after_failure", 0) + 1
             continue
         info["returned"] += 1
         # read back through every access path
